@@ -27,6 +27,7 @@ func srefSchemaJSON(allRoot bool) string {
  "R":{"columns":{
    "name":{"type":"string"},
    "imm":{"type":"string","mutable":false},
+   "cnt":{"type":"integer"},
    "sset":{"type":{"key":` + ref("N1", "strong") + `,"min":0,"max":"unlimited"}},
    "sopt":{"type":{"key":` + ref("N1", "strong") + `,"min":0,"max":1}},
    "smap":{"type":{"key":{"type":"string"},"value":` + ref("N1", "strong") + `,"min":0,"max":"unlimited"}},
@@ -177,6 +178,13 @@ func srefAlphabet(level int) []dbx.Txn {
 		opInsert("N2", uN2[0], rm.Row{"name": str("b")}),
 		opInsert("N1", n1[0], rm.Row{"name": str("a"), "next": uset(uN2[0])}),
 		opInsert("R", uR[0], rm.Row{"name": str("chain"), "sset": uset(n1[0])}))
+	// a plain counter: values returning to the default, arithmetic reaching zero
+	add("R r1.cnt:=5", opUpdate("R", uR[0], rm.Row{"cnt": rm.SetOf(rm.I(5))}))
+	add("R r1.cnt:=0", opUpdate("R", uR[0], rm.Row{"cnt": rm.SetOf(rm.I(0))}))
+	add("R r1.cnt+=1", opMutate("R", uR[0], "cnt", "+=", rm.SetOf(rm.I(1))))
+	add("R r1.cnt-=1", opMutate("R", uR[0], "cnt", "-=", rm.SetOf(rm.I(1))))
+	add("R r1.cnt*=0", opMutate("R", uR[0], "cnt", "*=", rm.SetOf(rm.I(0))))
+	add("R r1.name:=\"\"", opUpdate("R", uR[0], rm.Row{"name": str("")}))
 	// a non-root leaf holding a weak reference to a root row (garbage collection and weak clean-up in one go)
 	add("ins PR p1", opInsert("PR", uPR[0], rm.Row{"name": str("peer")}))
 	add("del PR p1", opDelete("PR", uPR[0]))
